@@ -27,7 +27,9 @@ MANIFEST = {
             'rerandomised (zero sharing / reshare) on every path by a FRESH zero sharing (one generation masks one opening; '
             'zero_sharing_reuse_leaks_refuted, GF(7)); exhaustive GF(11) counting theorems unrerandomised_product_leaks_refuted '
             '(views of two nonzero secrets overlap in 110 of 1210 tapes) and rerandomised_product_uniform justify the obligation; '
-            'failing sites are replayed (m=3, t=1: party 0 reconstructs and factors the product polynomial).',
+            'failing sites are replayed (m=3, t=1: party 0 reconstructs and factors the product polynomial). Threshold changed by the '
+            'program before start() (m=5, 1->2 and 2->1): every PRSS share / zero sharing logged at all parties must have exactly the degree of '
+            'the threshold in force, and the coalition {0,1} must not recover the is_zero_public secret from its own shares of r.',
     'note': 'Per-opening bounds are proved; composition across a whole adaptive program is the union bound over openings, stated not '
             'mechanised. PRF (SHAKE-128) outputs and `secrets` draws being uniform and independent are oracle assumptions; that a '
             'coalition of <= t parties misses one PRSS key / one of the t+1 dealers is taken from C16, not re-proved. Row obligations '
@@ -614,6 +616,177 @@ def analyse_reuse(scen, out):
     return res
 
 
+# ------------------------------------------------------------------------------------------------
+# threshold changed by the program before start(): every PRSS-generated mask must have the degree of the threshold
+# IN FORCE, and a coalition of t parties must not be able to compute the blinding factor
+
+def worker_tchange(cfg):
+    """Sim(m, t0): session 1 with threshold t0 (keys exchanged, prfs(bound) obtained for the bounds used later), shutdown,
+    every party sets mpc.threshold = t, session 2.
+    Logs, per party, every pseudorandom_share / pseudorandom_share_zero (and np variants) with its uci."""
+    sys.path.insert(0, HARNESS)
+    from lib.sim import Sim
+    m, t0, t, reps = cfg['m'], cfg['t0'], cfg['t'], cfg['reps']
+    sim = Sim(m=m, t=t0, no_prss=False, seed=cfg.get('seed', 0), log_messages=False, track_tasks=False)
+    logs = [[] for _ in range(m)]
+    opened = []
+    out = {}
+    try:
+        have_np = False
+        try:
+            have_np = bool(sim.mods[0]['mpyc.numpy'].np)
+        except Exception:
+            pass
+        # session 1 with threshold t0: the keys of t0 are exchanged and PRFs for the bounds used later are obtained
+        sim.start()
+
+        async def session1(mpc, mods, pid):
+            secint, secfld = mpc.SecInt(32), mpc.SecFld(2**61 - 1)
+            for st in (secint, secfld):
+                mpc.prfs(st.field.order)
+            for j in range(0, 130):
+                mpc.prfs(1 << j)
+            a = mpc.input(secint(pid + 1), senders=0)
+            return [bool(await mpc.is_zero_public(a)), int(await mpc.output(mpc.sgn(a)))]
+        out['session1'] = sim.run(session1)
+        sim.shutdown()
+        # the program changes the threshold between the sessions
+        for i in range(m):
+            mpc_i, th = sim.mpcs[i], sim.mods[i]['mpyc.thresha']
+            mpc_i.threshold = t
+            for nm, kind in (('pseudorandom_share', 'share'), ('np_pseudorandom_share', 'share'),
+                             ('pseudorandom_share_zero', 'zero'), ('np_pseudorandom_share_0', 'zero')):
+                orig = getattr(th, nm)
+
+                def wrapped(field, mm, pid, prfs, uci, n, _o=orig, _l=logs[i], _k=kind):
+                    r = _o(field, mm, pid, prfs, uci, n)
+                    bound = next(iter(prfs.values())).max if prfs else None
+                    _l.append((_site_frame(), _k, uci.hex(), int(field.modulus) if hasattr(field, 'modulus') and
+                               isinstance(field.modulus, int) else None, bound, _toint(r)))
+                    return r
+                setattr(th, nm, wrapped)
+        cls0 = type(sim.mpcs[0])
+        oout = cls0.output
+
+        def output(self, x, receivers=None, threshold=None, raw=False, _o=oout):
+            who = _caller_name()
+            fut = _o(self, x, receivers, threshold, raw)
+            if who in ('is_zero_public', 'np_is_zero_public', 'reciprocal'):
+                async def w():
+                    v = await fut
+                    opened.append((who, _toint(v)))
+                    return v
+                return w()
+            return fut
+        cls0.output = output
+        sim.start()
+        out['threshold_in_force'] = [int(mp.threshold) for mp in sim.mpcs]
+        secrets_used = []
+
+        async def prog(mpc, mods, pid):
+            secint, secfld = mpc.SecInt(32), mpc.SecFld(2**61 - 1)
+            res = []
+            for rep in range(reps):
+                sec = 5 + 7 * rep
+                if pid == 0:
+                    secrets_used.append(sec)
+                a = mpc.input(secint(sec), senders=m - 1)
+                res.append(bool(await mpc.is_zero_public(a)))
+                b = mpc.input(secfld(sec), senders=m - 1)
+                res.append(int(await mpc.output(mpc.reciprocal(b) * b)))
+                res.append(int(await mpc.output(mpc.sgn(a))))
+                res.append([int(x) for x in await mpc.output(mpc.random_bits(secint, 2))])
+                if have_np:
+                    np = mods['mpyc.numpy'].np
+                    arr = mpc.input(secint.array(np.array([sec, 0])), senders=m - 1)
+                    res.append(_toint(await mpc.np_is_zero_public(arr)))
+            return res
+        res = sim.run(prog)
+        out['results'] = [r if isinstance(r, list) else str(r) for r in res]
+        try:
+            sim.shutdown()
+        except Exception:
+            pass
+    finally:
+        sim.close()
+    out['logs'] = logs
+    out['opened'] = opened
+    out['secrets'] = secrets_used
+    return out
+
+
+def _poly_degree(ys, p):
+    """Degree of the polynomial through (1, ys[0]), ..., (m, ys[m-1]) mod p (-1 for the zero polynomial)."""
+    m = len(ys)
+    coef = [0] * m
+    for i in range(m):
+        num = [1]                       # prod_{j != i} (X - x_j)
+        den = 1
+        for j in range(m):
+            if j != i:
+                xj = j + 1
+                num = [(a - xj * b) % p for a, b in zip([0] + num, num + [0])]
+                den = den * (i + 1 - xj) % p
+        w = ys[i] * pow(den, -1, p) % p
+        for d in range(len(num)):
+            coef[d] = (coef[d] + w * num[d]) % p
+    deg = m - 1
+    while deg >= 0 and coef[deg] == 0:
+        deg -= 1
+    return deg, coef[0]
+
+
+def analyse_tchange(out, m, t):
+    """Per PRSS mask (aligned over the parties by its uci): degree of the sharing polynomial; and the coalition
+    attack on is_zero_public: parties 0..t-1 interpolate r from their t shares as if its degree were < t."""
+    res = {'masks': 0, 'low_degree': [], 'bad_degree': [], 'coalition_hits': 0, 'coalition_runs': 0, 'sample': None}
+    per = [{(e[2], e[1]): e for e in lg} for lg in out['logs']]
+    keys = [k for k in per[0] if all(k in q for q in per)]
+    izp = []
+    for k in keys:
+        es = [q[k] for q in per]
+        func, kind, uci, p, bound, _ = es[0]
+        if p is None:
+            continue
+        n = len(es[0][5]) if isinstance(es[0][5], list) else 1
+        want = t if kind == 'share' else 2 * t
+        if kind == 'share' and bound is not None and bound < 2**8:
+            continue                    # tiny codomain (bits): the leading coefficient may vanish by chance
+        for h in range(n):
+            ys = [(e[5][h] if isinstance(e[5], list) else e[5]) % p for e in es]
+            deg, c0 = _poly_degree(ys, p)
+            res['masks'] += 1
+            rec = {'site': func, 'kind': kind, 'uci': uci, 'index': h, 'degree': deg, 'threshold_in_force': t, 'expected_degree': want}
+            if kind == 'zero' and c0 != 0:
+                res['bad_degree'].append({**rec, 'constant_term': c0})
+            elif deg > want:
+                res['bad_degree'].append(rec)
+            elif deg < want and not (kind == 'zero' and deg == -1 and t == 0):
+                res['low_degree'].append(rec)
+            if func == 'is_zero_public' and kind == 'share' and bound == p and h == 0:
+                izp.append((ys, c0, p))
+    # coalition attack: c = a * r is public; the coalition {0..t-1} guesses r from its own t shares
+    cs = [v for who, v in out['opened'] if who == 'is_zero_public']
+    # (sgn calls is_zero_public internally too: every call is attacked; the value it tests is c / r)
+    for (ys, r_true, p), c in zip(izp, cs):
+        a = c * pow(r_true, -1, p) % p if r_true else None
+        pts = [(i + 1, ys[i]) for i in range(t)]
+        guess = 0
+        for i, (xi, yi) in enumerate(pts):
+            w = yi
+            for j, (xj, _) in enumerate(pts):
+                if j != i:
+                    w = w * (-xj) % p * pow(xi - xj, -1, p) % p
+            guess = (guess + w) % p
+        a_guess = (c * pow(guess, -1, p)) % p if guess else None
+        res['coalition_runs'] += 1
+        res['coalition_hits'] += (guess == r_true)
+        if res['sample'] is None:
+            res['sample'] = {'secret_value_tested': a, 'opened_c': c, 'coalition': list(range(t)), 'coalition_shares_of_r': [y for _, y in pts],
+                             'r_guess': guess, 'r_true': r_true, 'a_guess': a_guess}
+    return res
+
+
 def spawn(cfg, python, timeout=600):
     env = dict(os.environ)
     repo = os.environ.get('MPYC_REPO', '/repo')
@@ -772,8 +945,34 @@ def run(ctx):
         cfg['steps'] = [(s['name'], s['secret'], 1) for s in SCEN
                         if not (s.get('prss_only') and cfg['no_prss'])]
     t0 = time.time()
+    tcfgs = [dict(mode='tchange', m=5, t0=1, t=2, reps=ctx.n(6, 15), seed=ctx.seed),
+             dict(mode='tchange', m=5, t0=2, t=1, reps=ctx.n(3, 8), seed=ctx.seed + 1)]
     with ThreadPoolExecutor(max_workers=8) as ex:
+        fut_t = [ex.submit(spawn, c, python) for c in tcfgs]
         outs = list(ex.map(lambda c: spawn(c, python), configs))
+        touts = [f.result() for f in fut_t]
+    # threshold changed before start(): masks must follow the threshold in force
+    for tc, to in zip(tcfgs, touts):
+        tag = {'m': tc['m'], 'threshold_at_startup': tc['t0'], 'threshold_in_force': tc['t'], 'prss': True}
+        if 'error' in to or any(not isinstance(r, list) for r in to.get('results', ['x'])) or \
+                any(r != to['results'][0] for r in to['results']):
+            ctx.broken.append({'kind': 'simulator', 'config': tag, 'detail': str(to.get('error') or to.get('results'))[:600]})
+            continue
+        an = analyse_tchange(to, tc['m'], tc['t'])
+        ctx.case({**tag, 'masks': an['masks']}, nontrivial=True, kind='threshold-change')
+        ctx.extra.setdefault('threshold_change', []).append({**tag, 'masks_checked': an['masks'], 'low_degree': len(an['low_degree']),
+                                                              'coalition_attack': '%d/%d' % (an['coalition_hits'], an['coalition_runs'])})
+        ctx.log('threshold change %d -> %d (m=%d): %d PRSS masks, %d of too low degree, %d inconsistent; coalition of %d recovers the secret in %d/%d '
+                'is_zero_public runs' % (tc['t0'], tc['t'], tc['m'], an['masks'], len(an['low_degree']), len(an['bad_degree']), tc['t'],
+                                         an['coalition_hits'], an['coalition_runs']))
+        sites = sorted({r['site'] or 'random_bits/other' for r in an['low_degree']})
+        if an['low_degree'] or an['bad_degree'] or (an['coalition_runs'] and 2 * an['coalition_hits'] >= an['coalition_runs']):
+            ctx.violation('mask-degree-below-threshold after-threshold-change sites=%s' % ','.join(sites),
+                          {**tag, 'low_degree_masks': an['low_degree'][:8], 'inconsistent_masks': an['bad_degree'][:4],
+                           'coalition_attack_on_is_zero_public': {'hits': an['coalition_hits'], 'runs': an['coalition_runs'], 'sample': an['sample']},
+                           'why': 'a PRSS mask of degree d < t is determined by d+1 <= t parties: the coalition computes the blinding '
+                                  'factor r and the secret a = c / r'},
+                          found_input=True)
     ctx.log('simulator: %d configurations x %d scenarios in %.1fs' % (len(configs), len(SCEN), time.time() - t0))
     exprs, meta = [], []
     covered_sites = set()
@@ -985,5 +1184,5 @@ def search(sc, python, ctx, reps=30):
 if __name__ == '__main__':
     if '--worker' in sys.argv:
         cfg = json.loads(sys.stdin.read())
-        r = worker_product(cfg) if cfg.get('mode') == 'product' else worker(cfg)
+        r = {'product': worker_product, 'tchange': worker_tchange}.get(cfg.get('mode'), worker)(cfg)
         print('RESULT ' + json.dumps(r, default=str))
